@@ -2,7 +2,10 @@
    drops would not have fitted.  The counting form on truncateLoop (where exactly
    the loop stops and what the running length is at that point), its lift through
    the three sections, and the statement on the message made of the kept records,
-   the first dropped record and the OPT record that was set aside. *)
+   the first dropped record and the OPT record that was set aside; and, for the
+   packed form of the clause, exactness of Len() WITH compression for escape-free
+   messages of the common types (equal key sets of the packer's map and the
+   length walk's set, at equal offsets). *)
 From Dns Require Import Gen.Layouts Gen.Lens Gen.Registry Gen.Structs Gen.Consts.
 From Dns Require Import Base.ListX Model.Truncate Proofs.EscapeProofs Proofs.TokenProofs Proofs.NameWireProofs
   Proofs.LenNameProofs Proofs.LenFieldProofs Proofs.LenRRProofs Proofs.LenMsgProofs Proofs.LenCompressProofs
@@ -286,17 +289,23 @@ Proof.
   apply orb_prop in Hn. destruct Hn as [Hn|Hn]; apply bytes_eqb_eq in Hn; rewrite Hn; reflexivity.
 Qed.
 
+Lemma kept_compressible m tc an ns ex :
+  (an <> [] \/ ns <> [] \/ ex <> []) ->
+  is_compressible (set_sections m tc true an ns (ex ++ opt_list (set_aside m))) = true.
+Proof.
+  intro Hne. unfold is_compressible. cbn [m_question m_answer m_ns m_extra set_sections].
+  destruct an as [|x an]; [destruct ns as [|y ns]; [destruct ex as [|z ex]; [exfalso; tauto|]|]|];
+    cbn [length app Nat.eqb negb]; rewrite ?orb_true_r; reflexivity.
+Qed.
+
 Lemma msg_len_plus_opt m tc an ns ex :
   set_aside_exact m = true -> (an <> [] \/ ns <> [] \/ ex <> []) ->
   Z.of_N (msg_len (set_sections m tc true an ns (ex ++ opt_list (set_aside m)))) =
   (Z.of_N (all_len m an ns ex) + set_aside_len m)%Z.
 Proof.
   intros Hx Hne. unfold msg_len. cbn [m_compress set_sections andb].
-  assert (Hc : is_compressible (set_sections m tc true an ns (ex ++ opt_list (set_aside m))) = true).
-  { unfold is_compressible. cbn [m_question m_answer m_ns m_extra set_sections].
-    destruct an as [|x an]; [destruct ns as [|y ns]; [destruct ex as [|z ex]; [exfalso; tauto|]|]|];
-      cbn [length app Nat.eqb negb]; rewrite ?orb_true_r; reflexivity. }
-  rewrite Hc, msg_len_with_sections, fold_step_r_app. unfold all_len. rewrite questions_len_steps.
+  rewrite (kept_compressible m tc an ns ex Hne), msg_len_with_sections, fold_step_r_app.
+  unfold all_len. rewrite questions_len_steps.
   set (a3 := fold_left step_r ex _).
   unfold set_aside_exact, set_aside_len in *. destruct (set_aside m) as [o|]; cbn [opt_list fold_left]; [|lia].
   unfold step_r. pose proof (len_rr_opt_exact o (fst a3) (snd a3) Hx) as Ho.
@@ -367,14 +376,18 @@ Proof.
   rewrite !Nat.ltb_irrefl. replace (_ <? _)%nat with false by lia. reflexivity.
 Qed.
 
-(* THE CLAUSE, on Len(): the message made of the records Truncate kept, the
-   first record it dropped, and the OPT record measures more than
-   max(size, 512) *)
-Theorem first_dropped_does_not_fit m size0 m' :
-  has_tsig m = false -> set_aside_exact m = true -> next_dropped m size0 = Some m' ->
-  (trunc_size size0 < Z.of_N (msg_len m'))%Z.
+(* what next_dropped is, when it is: prefixes of the three sections (one of them
+   one record longer than what Truncate kept) and the OPT; not empty; and the
+   running length of Msg.Len over them exceeds the budget *)
+Lemma next_dropped_shape m size0 m' :
+  has_tsig m = false -> next_dropped m size0 = Some m' ->
+  exists tc ja jn je,
+    let an := firstn ja (m_answer m) in let ns := firstn jn (m_ns m) in let ex := firstn je (rest_extra m) in
+    m' = set_sections m tc true an ns (ex ++ opt_list (set_aside m)) /\
+    (an <> [] \/ ns <> [] \/ ex <> []) /\
+    (trunc_budget m size0 < Z.of_N (all_len m an ns ex))%Z.
 Proof.
-  intros Ht Hx Hnd.
+  intros Ht Hnd.
   destruct (Z_le_gt_dec (Z.of_N (msg_len_with m None)) (trunc_size size0)) as [Hfit|Hl].
   { rewrite (next_dropped_fits m size0 Ht Hfit) in Hnd. discriminate. }
   apply Z.gt_lt in Hl.
@@ -397,20 +410,70 @@ Proof.
   assert (Hss : forall an ns ex,
     set_sections (truncate m size0) tc true an ns ex = set_sections m tc true an ns ex).
   { intros. rewrite Heq. apply set_sections_twice. }
-  rewrite !Hss in Hnd. unfold trunc_budget in *.
+  rewrite !Hss in Hnd.
   destruct (na <? length (m_answer m))%nat eqn:EA.
-  - apply Some_inj in Hnd. subst m'. destruct (DA ltac:(lia)) as [-> [-> D]]. rewrite !firstn_O.
-    rewrite msg_len_plus_opt; [lia|exact Hx|]. left. destruct (m_answer m); [cbn in EA; lia|discriminate].
+  - apply Some_inj in Hnd. subst m'. destruct (DA ltac:(lia)) as [-> [-> D]].
+    exists tc, (S na), 0%nat, 0%nat. rewrite !firstn_O. split; [reflexivity|]. split; [|exact D].
+    left. destruct (m_answer m); [cbn in EA; lia|discriminate].
   - assert (Hna : na = length (m_answer m)) by lia.
     destruct (nn <? length (m_ns m))%nat eqn:EN.
-    + apply Some_inj in Hnd. subst m'. destruct (DN Hna ltac:(lia)) as [-> D]. rewrite !firstn_O.
-      rewrite Hna, firstn_all. rewrite msg_len_plus_opt; [lia|exact Hx|].
+    + apply Some_inj in Hnd. subst m'. destruct (DN Hna ltac:(lia)) as [-> D].
+      exists tc, na, (S nn), 0%nat. rewrite !firstn_O. split; [reflexivity|].
+      split; [|rewrite Hna, firstn_all; exact D].
       right; left. destruct (m_ns m); [cbn in EN; lia|discriminate].
     + assert (Hnn : nn = length (m_ns m)) by lia.
       destruct (ne <? length (rest_extra m))%nat eqn:EE; [|discriminate].
       apply Some_inj in Hnd. subst m'. pose proof (DE Hna Hnn ltac:(lia)) as D.
-      rewrite Hna, Hnn, !firstn_all. rewrite msg_len_plus_opt; [lia|exact Hx|].
+      exists tc, na, nn, (S ne). split; [reflexivity|].
+      split; [|rewrite Hna, Hnn, !firstn_all; exact D].
       right; right. destruct (rest_extra m); [cbn in EE; lia|discriminate].
+Qed.
+
+(* THE CLAUSE, on Len(): the message made of the records Truncate kept, the
+   first record it dropped, and the OPT record measures more than
+   max(size, 512) *)
+Theorem first_dropped_does_not_fit m size0 m' :
+  has_tsig m = false -> set_aside_exact m = true -> next_dropped m size0 = Some m' ->
+  (trunc_size size0 < Z.of_N (msg_len m'))%Z.
+Proof.
+  intros Ht Hx Hnd. destruct (next_dropped_shape m size0 m' Ht Hnd) as [tc [ja [jn [je [-> [Hne D]]]]]].
+  cbv zeta in *. rewrite msg_len_plus_opt by assumption. unfold trunc_budget in D. lia.
+Qed.
+
+(* that message is packed with compression *)
+Lemma next_dropped_compress m size0 m' :
+  has_tsig m = false -> next_dropped m size0 = Some m' -> msg_compress m' = true.
+Proof.
+  intros Ht Hnd. destruct (next_dropped_shape m size0 m' Ht Hnd) as [tc [ja [jn [je [-> [Hne _]]]]]].
+  cbv zeta in *. unfold msg_compress. cbn [m_compress set_sections andb]. now apply kept_compressible.
+Qed.
+
+(* its records are records of the original message *)
+Lemma forallb_firstn {A} (p : A -> bool) n : forall l, forallb p l = true -> forallb p (firstn n l) = true.
+Proof.
+  induction n as [|n IH]; intros l H; [reflexivity|]. destruct l as [|x l]; [reflexivity|].
+  cbn [firstn forallb] in *. apply andb_prop in H. destruct H as [H1 H2]. now rewrite H1, IH.
+Qed.
+Lemma pop_forallb (p : rr -> bool) m :
+  forallb p (m_extra m) = true -> forallb p (rest_extra m) = true /\ forallb p (opt_list (set_aside m)) = true.
+Proof.
+  unfold rest_extra, set_aside. intro H.
+  destruct (pop_edns0_spec (m_extra m)) as [[-> _]|[pre [o [post [E [_ [_ ->]]]]]]]; cbn [fst snd opt_list].
+  - split; [exact H|reflexivity].
+  - rewrite E in H. rewrite forallb_app in H. apply andb_prop in H. destruct H as [H1 H2].
+    cbn [forallb] in H2. apply andb_prop in H2. destruct H2 as [H2 H3].
+    split; [rewrite forallb_app, H1, H3; reflexivity|cbn [forallb]; now rewrite H2].
+Qed.
+Lemma next_dropped_forallb (p : rr -> bool) m size0 m' :
+  has_tsig m = false -> next_dropped m size0 = Some m' ->
+  forallb p (m_answer m) = true -> forallb p (m_ns m) = true -> forallb p (m_extra m) = true ->
+  m_question m' = m_question m /\
+  forallb p (m_answer m') = true /\ forallb p (m_ns m') = true /\ forallb p (m_extra m') = true.
+Proof.
+  intros Ht Hnd Ha Hn He. destruct (next_dropped_shape m size0 m' Ht Hnd) as [tc [ja [jn [je [-> _]]]]].
+  cbv zeta. cbn [m_question m_answer m_ns m_extra set_sections]. destruct (pop_forallb p m He) as [He1 He2].
+  split; [reflexivity|]. split; [now apply forallb_firstn|]. split; [now apply forallb_firstn|].
+  rewrite forallb_app, He2, forallb_firstn by exact He1. reflexivity.
 Qed.
 
 (* next_dropped is None only when nothing was dropped *)
@@ -450,8 +513,650 @@ Proof.
   intros Ht Hx Hnd Hex Hp. rewrite (Hex w Hp). now apply (first_dropped_does_not_fit m size0).
 Qed.
 
+
 (* ================================================================== *)
-(* 7. witnesses                                                         *)
+(* 7. Len() is exact WITH compression: one escape-free name             *)
+(* ================================================================== *)
+(* C08 proves Len() = len(Pack()) without compression only.  With it, the two
+   walks must agree exactly: the packer finds a pointer target for precisely the
+   suffix the length walk finds in its set.  The invariant is the equality of
+   the two key sets, at equal offsets. *)
+
+(* packDomainName's use of the compression map, as a walk over the label
+   starts V of a name of n octets packed at offset P: a hit ends the walk when
+   compress is set, a miss enters the suffix while its offset is below 16384 *)
+Fixpoint pk_list (cm : cmap) (V : list bytes) (n : nat) (P : N) (cp : bool) : cmap * option nat :=
+  match V with
+  | [] => (cm, None)
+  | Z :: V' =>
+    match cm_find cm Z with
+    | Some _ => if cp then (cm, Some (n - length Z)%nat) else pk_list cm V' n P cp
+    | None =>
+      pk_list (if P + N.of_nat (n - length Z) <? mco then (Z, P + N.of_nat (n - length Z)) :: cm else cm) V' n P cp
+    end
+  end.
+
+Lemma has_backslash_cons x r : has_backslash (x :: r) = false -> x <> 92 /\ has_backslash r = false.
+Proof.
+  unfold has_backslash. cbn [existsb]. intro H. apply orb_false_elim in H. destruct H as [H1 H2].
+  split; [intro E; subst; discriminate|exact H2].
+Qed.
+
+Lemma walk_dot lstart r : walk lstart (46 :: r) = lstart :: walk r r.
+Proof. unfold walk. rewrite tsufs_dot. destruct r; reflexivity. Qed.
+
+(* the scan loop over an escape-free text against pk_list *)
+Lemma pn_go_pk n P0 s' : forall lab lstart wd nl cap cp st cm e,
+  has_backslash s' = false -> lid s' wd = true -> (wd = true <-> lab = []) -> pn_cm st = Some cm ->
+  tsufs lstart = tsufs s' -> (length lstart = length lab + length s')%nat -> (length lstart <= n)%nat ->
+  lenN (pn_out st) + N.of_nat (length lstart) = P0 + N.of_nat n ->
+  pn_go s' false lab lstart wd nl cap cp st = Ok e ->
+  pn_cm (end_st e) = Some (fst (pk_list cm (walk lstart s') n P0 cp)) /\
+  match snd (pk_list cm (walk lstart s') n P0 cp) with
+  | Some l => (exists p, e = PnPointer (end_st e) p) /\ lenN (pn_out (end_st e)) = P0 + N.of_nat l
+  | None => e = PnDone (end_st e) /\ lenN (pn_out (end_st e)) = P0 + N.of_nat n
+  end.
+Proof.
+  induction s' as [| a b c r3 Hd IH | a r1 Hd IH | | r IH | x r H1 H2 IH] using tok_ind;
+    intros lab lstart wd nl cap cp st cm e Hb Hlid Hwd Hcm Hts Hlen Hn Hoff H.
+  - cbn [lid] in Hlid. subst wd. assert (lab = []) by (now apply Hwd). subst lab.
+    cbn [pn_go] in H. injection H as <-. cbn [end_st walk pk_list fst snd length Nat.add] in *.
+    split; [exact Hcm|]. split; [reflexivity|]. lia.
+  - exfalso. apply has_backslash_cons in Hb. destruct Hb as [Hb _]. congruence.
+  - exfalso. apply has_backslash_cons in Hb. destruct Hb as [Hb _]. congruence.
+  - exfalso. apply has_backslash_cons in Hb. destruct Hb as [Hb _]. congruence.
+  - apply has_backslash_cons in Hb. destruct Hb as [_ Hb].
+    rewrite pn_go_dot in H. cbn [lid] in Hlid. cbn [andb] in H.
+    destruct wd; [discriminate|].
+    assert (Hlab : lab <> []). { intro E. apply Hwd in E. discriminate. }
+    destruct (64 <=? lenN lab); [discriminate|]. destruct (cap <? _); [discriminate|].
+    assert (Hroot : dot_root lab r = false) by (destruct lab; [congruence|reflexivity]).
+    assert (Ehit : dot_hit st lab r lstart = cm_find cm lstart).
+    { unfold dot_hit. now rewrite Hcm, Hroot. }
+    rewrite Ehit in H. cbn [length] in Hlen.
+    rewrite walk_dot. cbn [pk_list].
+    assert (Htl : tsufs r = tsufs r) by reflexivity.
+    assert (Eoff : lenN (pn_out st) = P0 + N.of_nat (n - length lstart)) by lia.
+    (* the walk goes on over r, the label written *)
+    assert (B : forall cm1,
+      pn_cm (dot_st1 st lab r lstart) = Some cm1 ->
+      (if max_name_wire <? nl + 1 + lenN lab + 1 then Err "longdomain"%string
+       else pn_go r false [] r true (nl + 1 + lenN lab) cap cp
+              {| pn_out := pn_out (dot_st1 st lab r lstart) ++ lenN lab :: lab;
+                 pn_cm := pn_cm (dot_st1 st lab r lstart) |}) = Ok e ->
+      pn_cm (end_st e) = Some (fst (pk_list cm1 (walk r r) n P0 cp)) /\
+      match snd (pk_list cm1 (walk r r) n P0 cp) with
+      | Some l => (exists p, e = PnPointer (end_st e) p) /\ lenN (pn_out (end_st e)) = P0 + N.of_nat l
+      | None => e = PnDone (end_st e) /\ lenN (pn_out (end_st e)) = P0 + N.of_nat n
+      end).
+    { intros cm1 Hcm1 H'. destruct (max_name_wire <? nl + 1 + lenN lab + 1); [discriminate|].
+      refine (IH [] r true _ cap cp _ cm1 e Hb Hlid _ _ _ _ _ _ H').
+      - tauto.
+      - exact Hcm1.
+      - reflexivity.
+      - reflexivity.
+      - lia.
+      - cbn [pn_out]. rewrite dot_st1_out, lenN_app, lenN_cons.
+        assert (lenN lab = N.of_nat (length lab)) by reflexivity. lia. }
+    destruct (cm_find cm lstart) as [p|] eqn:Ef.
+    + destruct cp.
+      * destruct (max_name_wire <? _); [discriminate|]. injection H as <-. cbn [end_st fst snd].
+        split; [exact Hcm|]. split; [exists p; reflexivity|exact Eoff].
+      * apply B; [|exact H]. unfold dot_st1. now rewrite Hcm, Hroot, Ef.
+    + assert (Hst1 : pn_cm (dot_st1 st lab r lstart) =
+                     Some (if P0 + N.of_nat (n - length lstart) <? mco
+                           then (lstart, P0 + N.of_nat (n - length lstart)) :: cm else cm)).
+      { unfold dot_st1. rewrite Hcm, Hroot, Ef, Eoff. fold mco. destruct (_ <? mco); [reflexivity|exact Hcm]. }
+      destruct cp; (apply B; [exact Hst1|exact H]).
+  - apply has_backslash_cons in Hb. destruct Hb as [_ Hb].
+    rewrite pn_go_plain in H by auto. rewrite lid_plain in Hlid by auto.
+    pose proof (lid_nil_false _ Hlid) as Hr. rewrite tsufs_plain in Hts by auto.
+    assert (Hw : walk lstart (x :: r) = walk lstart r).
+    { unfold walk. rewrite tsufs_plain by auto. destruct r; [congruence|reflexivity]. }
+    rewrite Hw.
+    apply (IH (lab ++ [x]) lstart false nl cap cp st cm e Hb Hlid); auto.
+    + split; [discriminate|]. intro E. destruct lab; discriminate.
+    + rewrite app_length. cbn [length] in *. lia.
+Qed.
+
+(* packDomainName on an escape-free name other than the root *)
+Lemma pack_name_pk s cap cp st cm st' :
+  has_backslash s = false -> s <> [] -> s <> [46] -> pn_cm st = Some cm ->
+  pack_name s cap cp st = Ok st' ->
+  pn_cm st' = Some (fst (pk_list cm (s :: tsufs s) (length s) (poff st) cp)) /\
+  poff st' = poff st + match snd (pk_list cm (s :: tsufs s) (length s) (poff st) cp) with
+                       | Some l => N.of_nat l + 2
+                       | None => lenN s + 1
+                       end.
+Proof.
+  intros Hb H1 H2 Hcm. unfold pack_name. destruct s as [|x r] eqn:Es; [congruence|]. rewrite <- Es in *.
+  destruct (is_fqdn s) eqn:Hf; [|discriminate]. cbn [negb].
+  rewrite pn_go_first by exact H2.
+  destruct (pn_go s false [] s true 0 cap cp st) as [e| | |] eqn:E; try discriminate. cbn [bind].
+  assert (Hlid : lid s true = true). { apply lid_first_equiv; [exact H2|]. now apply is_fqdn_lid. }
+  assert (Hw : walk s s = s :: tsufs s) by (unfold walk; rewrite Es; reflexivity).
+  destruct (pn_go_pk (length s) (poff st) s [] s true 0 cap cp st cm e Hb Hlid) as [C1 C2]; auto.
+  { tauto. }
+  rewrite Hw in C1, C2. rewrite (bytes_eqb_false s [46]) by exact H2.
+  destruct (snd (pk_list cm (s :: tsufs s) (length s) (poff st) cp)) as [l|].
+  - destruct C2 as [[p Ep] Ho]. rewrite Ep. destruct (cap <? _); [discriminate|].
+    intro X; injection X as <-. cbn [pn_cm pn_out]. split; [exact C1|].
+    unfold poff. cbn [pn_out]. rewrite lenN_app. change (lenN (u16 (p + 49152))) with 2. unfold poff in Ho. lia.
+  - destruct C2 as [Ep Ho]. rewrite Ep. destruct (_ <? cap); [|discriminate].
+    intro X; injection X as <-. cbn [pn_cm pn_out]. split; [exact C1|].
+    unfold poff. cbn [pn_out]. rewrite lenN_app, lenN_cons, lenN_nil. unfold poff, lenN in *. lia.
+Qed.
+
+(* the two walks, side by side.  [Ke cm c]: same keys *)
+Definition Ke (cm : cmap) (c : lset) : Prop := forall k, In k c <-> in_cm cm k.
+
+Lemma in_cm_find cm k : in_cm cm k -> exists p, cm_find cm k = Some p.
+Proof. unfold in_cm. destruct (cm_find cm k) as [p|]; [eauto|congruence]. Qed.
+Lemma not_in_cm_find cm k : ~ in_cm cm k -> cm_find cm k = None.
+Proof. unfold in_cm. destruct (cm_find cm k); [intro H; exfalso; apply H; discriminate|reflexivity]. Qed.
+
+(* without compress, a walk over suffixes that are all keys already (or too far
+   into the message to be entered) leaves the map alone *)
+Lemma pk_noop V : forall cm n P,
+  (forall Z, In Z V -> in_cm cm Z \/ mco <= P + N.of_nat (n - length Z)) ->
+  pk_list cm V n P false = (cm, None).
+Proof.
+  induction V as [|Z V IH]; intros cm n P H; [reflexivity|]. cbn [pk_list].
+  destruct (cm_find cm Z) as [p|] eqn:E.
+  - apply IH. intros Z' HZ'. apply H. now right.
+  - destruct (H Z (or_introl eq_refl)) as [Hin|Hge]; [unfold in_cm in Hin; congruence|].
+    replace (P + N.of_nat (n - length Z) <? mco) with false by lia.
+    apply IH. intros Z' HZ'. apply H. now right.
+Qed.
+
+Lemma lists_agree n P cm0 cp : closed cm0 P -> forall m Z cm c c' hitL,
+  (length Z <= m)%nat -> Ke cm c ->
+  (forall k, in_cm cm0 k -> in_cm cm k) ->
+  (forall k, in_cm cm k -> in_cm cm0 k \/ (length Z < length k)%nat) ->
+  cls_list c (Z :: tsufs Z) n P = (c', hitL) ->
+  Ke (fst (pk_list cm (Z :: tsufs Z) n P cp)) c' /\
+  snd (pk_list cm (Z :: tsufs Z) n P cp) = (if cp then hitL else None).
+Proof.
+  intro Hcl.
+  (* one step, given the claim for the next suffix *)
+  assert (Step : forall Z cm c c' hitL,
+    (forall Z1 cm1 c1, (length Z1 < length Z)%nat -> Ke cm1 c1 ->
+       (forall k, in_cm cm0 k -> in_cm cm1 k) ->
+       (forall k, in_cm cm1 k -> in_cm cm0 k \/ (length Z1 < length k)%nat) ->
+       cls_list c1 (Z1 :: tsufs Z1) n P = (c', hitL) ->
+       Ke (fst (pk_list cm1 (Z1 :: tsufs Z1) n P cp)) c' /\
+       snd (pk_list cm1 (Z1 :: tsufs Z1) n P cp) = (if cp then hitL else None)) ->
+    Ke cm c -> (forall k, in_cm cm0 k -> in_cm cm k) ->
+    (forall k, in_cm cm k -> in_cm cm0 k \/ (length Z < length k)%nat) ->
+    cls_list c (Z :: tsufs Z) n P = (c', hitL) ->
+    Ke (fst (pk_list cm (Z :: tsufs Z) n P cp)) c' /\
+    snd (pk_list cm (Z :: tsufs Z) n P cp) = (if cp then hitL else None)).
+  { intros Z cm c c' hitL Next HK Hmono Hnew H. cbn [cls_list pk_list] in *.
+    destruct (ls_mem c Z) eqn:Em.
+    - injection H as <- <-. apply ls_mem_In in Em. apply HK in Em.
+      destruct (in_cm_find cm Z Em) as [p Ep]. rewrite Ep. destruct cp; [cbn [fst snd]; auto|].
+      rewrite pk_noop; [cbn [fst snd]; auto|].
+      intros Z' HZ'. destruct (Hnew Z Em) as [H0|Hl]; [|lia].
+      destruct (Hcl Z Z' H0 HZ') as [Hin|Hge]; [left; now apply Hmono|right; lia].
+    - assert (Hn : ~ in_cm cm Z).
+      { intro Hin. apply HK in Hin. apply ls_mem_In in Hin. congruence. }
+      rewrite (not_in_cm_find cm Z Hn).
+      set (cond := P + N.of_nat (n - length Z) <? mco) in *.
+      set (c1 := if cond then Z :: c else c) in *.
+      set (cm1 := if cond then (Z, P + N.of_nat (n - length Z)) :: cm else cm).
+      assert (HK1 : Ke cm1 c1).
+      { unfold cm1, c1. destruct cond; [|exact HK]. intro k. rewrite in_cm_cons. cbn [In]. rewrite (HK k). tauto. }
+      assert (Hmono1 : forall k, in_cm cm0 k -> in_cm cm1 k).
+      { intros k Hk. unfold cm1. destruct cond; [apply in_cm_cons; right|]; now apply Hmono. }
+      assert (Hnew1 : forall k, in_cm cm1 k -> in_cm cm0 k \/ k = Z \/ (length Z < length k)%nat).
+      { intros k Hk. unfold cm1 in Hk. destruct cond.
+        - apply in_cm_cons in Hk. destruct Hk as [<-|Hk]; [auto|]. destruct (Hnew k Hk); auto.
+        - destruct (Hnew k Hk); auto. }
+      rewrite (tsufs_first_sep Z) in *. destruct (first_sep Z) as [k|] eqn:Ek.
+      + destruct (first_sep_spec Z k Ek) as [_ [Hsk Hkl]]. pose proof (first_sep_pos Z k Ek) as Hk0.
+        assert (Hl1 : (length (skipn k Z) < length Z)%nat) by (rewrite skipn_length; lia).
+        apply (Next (skipn k Z) cm1 c1 Hl1 HK1 Hmono1); [|exact H].
+        intros q Hq. destruct (Hnew1 q Hq) as [?|[->|?]]; [now left|right; lia|right; lia].
+      + cbn [cls_list] in H. injection H as <- <-. cbn [pk_list fst snd]. split; [exact HK1|]. now destruct cp. }
+  induction m as [|m IH]; intros Z cm c c' hitL Hm HK Hmono Hnew H.
+  - apply (Step Z cm c c' hitL); auto. intros Z1 cm1 c1 Hl. lia.
+  - apply (Step Z cm c c' hitL); auto. intros Z1 cm1 c1 Hl. apply IH. lia.
+Qed.
+
+(* equal key sets, closed map: the invariant of exactness *)
+Definition Je (cm : cmap) (ls : lset) (P : N) : Prop := Ke cm ls /\ closed cm P.
+
+Lemma Je_mono cm ls P P' : Je cm ls P -> P <= P' -> Je cm ls P'.
+Proof. intros [H1 H2] HP. split; [exact H1|eapply closed_mono; eauto]. Qed.
+
+(* one escape-free, non-empty name packed and measured at the same offset:
+   domainNameLen is exactly what is written, and the key sets stay equal *)
+Lemma name_joint_eq s cap cp st cm ls n c' st' :
+  has_backslash s = false -> s <> [] -> pn_cm st = Some cm -> Je cm ls (poff st) ->
+  pack_name s cap cp st = Ok st' ->
+  domain_name_len s (poff st) (Some ls) cp = (n, c') ->
+  exists cm' ls', pn_cm st' = Some cm' /\ c' = Some ls' /\ poff st' = poff st + n /\ Je cm' ls' (poff st').
+Proof.
+  intros Hb H1 Hcm [HK Hcl] Hp Hl.
+  destruct (pack_name_cm s cap cp st cm st' Hcm Hcl Hp) as [cmx [C1 [_ [C3 _]]]].
+  destruct (list_eq_dec N.eq_dec s [46]) as [->|H2].
+  { (* the root: one octet, no walk on either side *)
+    cbn in Hl. injection Hl as <- <-.
+    pose proof (pack_name_root_cm _ _ _ _ Hp) as Hc. pose proof (pack_name_root _ _ _ _ Hp) as Ho.
+    exists cm, ls. split; [congruence|]. split; [reflexivity|]. split; [exact Ho|].
+    split; [exact HK|]. rewrite Hc, Hcm in C1. injection C1 as <-. exact C3. }
+  destruct (pack_name_pk s cap cp st cm st' Hb H1 H2 Hcm Hp) as [P1 P2].
+  assert (Ecm : cmx = fst (pk_list cm (s :: tsufs s) (length s) (poff st) cp)) by congruence.
+  clear P1.
+  unfold domain_name_len in Hl. rewrite !bytes_eqb_false in Hl by assumption. cbn [orb] in Hl. rewrite Hb in Hl.
+  destruct (cp || (poff st <? max_compression_offset)) eqn:Ego.
+  - rewrite compression_len_search_spec in Hl by exact H1.
+    match type of Hl with (match ?t with _ => _ end) = _ => destruct t as [cs' hit] eqn:Ew end.
+    destruct (lists_agree (length s) (poff st) cm cp Hcl (length s) s cm ls cs' hit (le_n _) HK) as [A1 A2]; auto.
+    assert (P2' : poff st' = poff st + match (if cp then hit else None) with
+                                       | Some l => N.of_nat l + 2 | None => lenN s + 1 end).
+    { rewrite <- A2. exact P2. }
+    clear P2. rename P2' into P2.
+    assert (A1' : Ke cmx cs') by (rewrite Ecm; exact A1).
+    exists cmx, cs'. split; [exact C1|].
+    destruct hit as [l|]; destruct cp; injection Hl as <- <-;
+      (split; [reflexivity|]); (split; [exact P2|]); (split; [exact A1'|exact C3]).
+  - apply orb_false_elim in Ego. destruct Ego as [-> Eo]. injection Hl as <- <-.
+    assert (Hno : pk_list cm (s :: tsufs s) (length s) (poff st) false = (cm, None)).
+    { apply pk_noop. intros Z _. right. unfold mco. lia. }
+    assert (Ecm2 : cmx = cm) by exact (eq_trans Ecm (f_equal fst Hno)).
+    assert (P2' : poff st' = poff st + (lenN s + 1)).
+    { exact (eq_trans P2 (f_equal (fun x : cmap * option nat => poff st + match snd x with
+                                      | Some l => N.of_nat l + 2 | None => lenN s + 1 end) Hno)). }
+    clear Ecm. subst cmx.
+    exists cm, ls. split; [exact C1|]. split; [reflexivity|]. split; [exact P2'|]. split; [exact HK|exact C3].
+Qed.
+
+(* ================================================================== *)
+(* 8. exact with compression: fields, records, sections, the message    *)
+(* ================================================================== *)
+Definition is_name_kind (k : fkind) : bool := match k with K_name _ => true | _ => false end.
+
+Lemma kind_term_joint_eq v f k t cap st cm ls off l l' c' st' :
+  kind_term f k t = true -> exact_kind k = true -> plain_field v f k = true ->
+  pn_cm st = Some cm -> Je cm ls (poff st) -> (is_name_kind k = true -> poff st = off + l) ->
+  pack_field v f k cap st = Ok st' -> len_term v t off l (Some ls) = (l', c') ->
+  exists cm' ls', pn_cm st' = Some cm' /\ c' = Some ls' /\ poff st' + l = poff st + l' /\ Je cm' ls' (poff st').
+Proof.
+  intros Hk He Hp Hcm HJ Hoff Hpk Hl.
+  (* the kinds that write no name: the map is kept, the size is the estimate *)
+  assert (Kp : walks t = false -> pn_cm st' = pn_cm st -> poff st' = poff st + term_est v t ->
+          exists cm' ls', pn_cm st' = Some cm' /\ c' = Some ls' /\ poff st' + l = poff st + l' /\ Je cm' ls' (poff st')).
+  { intros Hw Hc Hs. rewrite len_term_nowalk in Hl by exact Hw. injection Hl as <- <-.
+    exists cm, ls. split; [congruence|]. split; [reflexivity|]. split; [lia|]. eapply Je_mono; [exact HJ|lia]. }
+  destruct k; try discriminate He; destruct t; cbn [kind_term] in Hk; try discriminate;
+    repeat (apply andb_prop in Hk; let H := fresh "Hk" in destruct Hk as [Hk H]);
+    apply String.eqb_eq in Hk; subst; cbn [pack_field plain_field] in *.
+  - (* a name *)
+    clear Kp. apply Bool.eqb_prop in Hk0. subst. apply andb_prop in Hp. destruct Hp as [Hb Hn]. unfold no_bs in Hb.
+    cbn [len_term] in Hl. rewrite <- (Hoff eq_refl) in Hl.
+    destruct (domain_name_len (as_s (vget v f0)) (poff st) (Some ls) compress0) as [n c1] eqn:En.
+    injection Hl as <- <-.
+    destruct (name_joint_eq (as_s (vget v f0)) cap compress0 st cm ls n c1 st') as [cm1 [ls1 [C1 [-> [Hs J1]]]]]; auto.
+    { now destruct (has_backslash _). }
+    { intro E. rewrite E in Hn. discriminate. }
+    exists cm1, ls1. split; [exact C1|]. split; [reflexivity|]. split; [lia|exact J1].
+  - (* a character-string *)
+    unfold pack_string in Hpk. destruct (pack_txt_string _ _ _) eqn:E; try discriminate. injection Hpk as <-.
+    apply Kp; [reflexivity|apply pack_txt_string_cm in E; exact E|].
+    apply pack_txt_string_exact in E; [cbn [term_est]; lia|]. unfold no_bs in Hp. now destruct (has_backslash _).
+  - (* TXT *)
+    destruct (pack_txt _ _ _) eqn:E; try discriminate. injection Hpk as <-.
+    apply Kp; [reflexivity|apply pack_txt_cm in E; exact E|]. apply (pack_txt_exact _ _ _ _ Hp) in E. exact E.
+  - apply N.eqb_eq in Hk0. subst.
+    apply Kp; [reflexivity|apply pack_a_cm in Hpk; exact Hpk|exact (pack_a_exact _ _ _ _ Hpk)].
+  - apply N.eqb_eq in Hk0. subst.
+    apply Kp; [reflexivity|apply pack_aaaa_cm in Hpk; exact Hpk|exact (pack_aaaa_exact _ _ _ _ Hpk)].
+Qed.
+
+(* alignment for exactness with compression: as C08's exact alignment, and no
+   constant counted by len() is still unwritten when a name is reached (the name
+   is then measured at the offset it is written at) *)
+Fixpoint cexact_go (credit : N) (pfs : list pfield) (ts : list lterm) : bool :=
+  let '(credit', ts') := absorb credit ts in
+  match pfs with
+  | [] => (credit' =? 0) && match ts' with [] => true | _ => false end
+  | (f, k) :: r =>
+    match kind_fixed k with
+    | Some n => (n <=? credit') && cexact_go (credit' - n) r ts'
+    | None =>
+      match ts' with
+      | t :: ts'' => kind_term f k t && exact_kind k && (negb (is_name_kind k) || (credit' =? 0))
+                     && cexact_go credit' r ts''
+      | [] => false
+      end
+    end
+  end.
+
+Lemma fields_joint_eq v : forall pfs credit ts cap st cm ls off l l' c' st',
+  cexact_go credit pfs ts = true -> plain_fields v pfs = true ->
+  pn_cm st = Some cm -> Je cm ls (poff st) -> poff st + credit = off + l ->
+  pack_fields v pfs cap st = Ok st' ->
+  len_terms v ts off l (Some ls) = (l', c') ->
+  exists cm' ls', pn_cm st' = Some cm' /\ c' = Some ls' /\ poff st' = off + l' /\ Je cm' ls' (poff st').
+Proof.
+  induction pfs as [|[f k] r IH]; intros credit ts cap st cm ls off l l' c' st' Ha Hpl Hcm HJ HP Hp Hl.
+  - cbn [cexact_go] in Ha. destruct (absorb credit ts) as [c1 ts1] eqn:Eab.
+    destruct (absorb_len v ts credit c1 ts1 off l (Some ls) Eab) as [El Hc]. rewrite El in Hl.
+    apply andb_prop in Ha. destruct Ha as [H0 Ht]. destruct ts1; [|discriminate].
+    cbn [len_terms] in Hl. injection Hl as <- <-.
+    cbn [pack_fields] in Hp. injection Hp as <-. exists cm, ls.
+    split; [exact Hcm|]. split; [reflexivity|]. split; [lia|exact HJ].
+  - cbn [cexact_go] in Ha. destruct (absorb credit ts) as [c1 ts1] eqn:Eab.
+    destruct (absorb_len v ts credit c1 ts1 off l (Some ls) Eab) as [El Hc]. rewrite El in Hl.
+    cbn [plain_fields forallb fst snd] in Hpl. apply andb_prop in Hpl. destruct Hpl as [Hp1 Hpl].
+    cbn [pack_fields] in Hp. destruct (pack_field v f k cap st) as [s1| | |] eqn:E1; try discriminate.
+    cbn [bind] in Hp.
+    destruct (kind_fixed k) as [n|] eqn:Ek.
+    + apply andb_prop in Ha. destruct Ha as [Hn Ha].
+      destruct (fixed_is_fixed v f k n Ek) as [b [Hb Hf]]. rewrite Hf in E1.
+      pose proof (pack_fixed_exact _ _ _ _ E1) as Hs. pose proof (pack_fixed_cm _ _ _ _ E1) as Hm.
+      apply (IH (c1 - n) ts1 cap s1 cm ls off (l + (c1 - credit)) l' c' st' Ha Hpl); auto.
+      * congruence.
+      * eapply Je_mono; [exact HJ|lia].
+      * lia.
+    + destruct ts1 as [|t ts2]; [discriminate|].
+      apply andb_prop in Ha. destruct Ha as [Hk Ha]. apply andb_prop in Hk. destruct Hk as [Hk Hnm].
+      apply andb_prop in Hk. destruct Hk as [Hk He].
+      cbn [len_terms] in Hl.
+      destruct (len_term v t off (l + (c1 - credit)) (Some ls)) as [l2 c2] eqn:Et.
+      destruct (kind_term_joint_eq v f k t cap st cm ls off (l + (c1 - credit)) l2 c2 s1 Hk He Hp1 Hcm HJ) as
+          [cm1 [ls1 [C1 [-> [Hs J1]]]]]; auto.
+      { intro Hn. rewrite Hn in Hnm. cbn [negb orb] in Hnm. lia. }
+      apply (IH c1 ts2 cap s1 cm1 ls1 off l2 l' c' st' Ha Hpl C1 J1); auto. lia.
+Qed.
+
+Definition kind_cexact (k : string) : bool :=
+  match find_layout layouts k, len_terms_of k with
+  | Some L, Some ts => cexact_go 0 (tl_pack L) ts
+  | _, _ => false
+  end.
+Lemma exact_kinds_cexact : forallb kind_cexact exact_kinds = true.
+Proof. vm_compute. reflexivity. Qed.
+
+(* C08's plain record, of a kind aligned for compression as well *)
+Definition rr_cplain (r : rr) : bool := rr_plain r && kind_cexact (rr_kind r).
+
+Lemma rr_joint_eq r cap st cm ls n c' st' :
+  rr_cplain r = true -> pn_cm st = Some cm -> Je cm ls (poff st) -> poff st < cap ->
+  pack_rr r cap true st = Ok st' ->
+  len_rr r (poff st) (Some ls) = (n, c') ->
+  exists cm' ls', pn_cm st' = Some cm' /\ c' = Some ls' /\ poff st' = poff st + n /\ Je cm' ls' (poff st').
+Proof.
+  unfold rr_cplain, rr_plain, kind_cexact. intros Hpl Hcm HJ Hcap Hp Hl.
+  apply andb_prop in Hpl. destruct Hpl as [Hpl Hk].
+  repeat (apply andb_prop in Hpl; let X := fresh "Hpl" in destruct Hpl as [Hpl X]).
+  destruct (find_layout layouts (rr_kind r)) as [Ly|] eqn:EL; [|discriminate].
+  unfold len_rr in Hl.
+  destruct (domain_name_len (rr_name r) (poff st) (Some ls) true) as [hl c1] eqn:En.
+  destruct (len_terms_of (rr_kind r)) as [ts|]; [|discriminate].
+  rewrite (pack_rr_unfold r Ly cap true st EL) in Hp.
+  unfold pack_header in Hp. replace (poff st =? cap) with false in Hp by lia.
+  destruct (pack_name (rr_name r) cap true st) as [s1| | |] eqn:E1; try discriminate. cbn [bind] in Hp.
+  destruct (pack_fixed (u16 (rr_type r)) cap s1) as [s2| | |] eqn:E2; try discriminate. cbn [bind] in Hp.
+  destruct (pack_fixed (u16 (rr_class r)) cap s2) as [s3| | |] eqn:E3; try discriminate. cbn [bind] in Hp.
+  destruct (pack_fixed (u32 (rr_ttl r)) cap s3) as [s4| | |] eqn:E4; try discriminate. cbn [bind] in Hp.
+  destruct (pack_fixed (u16 0) cap s4) as [s5| | |] eqn:E5; try discriminate. cbn [bind] in Hp.
+  destruct (pack_fields (rr_data r) (tl_pack Ly) cap s5) as [s6| | |] eqn:E6; try discriminate. cbn [bind] in Hp.
+  destruct (name_joint_eq (rr_name r) cap true st cm ls hl c1 s1) as [cm1 [ls1 [C1 [-> [Hs J1]]]]]; auto.
+  { unfold no_bs in Hpl2. now destruct (has_backslash _). }
+  { intro E. rewrite E in Hpl1. discriminate. }
+  pose proof (pack_fixed_cm _ _ _ _ E2). pose proof (pack_fixed_cm _ _ _ _ E3).
+  pose proof (pack_fixed_cm _ _ _ _ E4). pose proof (pack_fixed_cm _ _ _ _ E5).
+  apply pack_fixed_exact in E2, E3, E4, E5. rewrite lenN_u16 in E2, E3, E5.
+  change (lenN (u32 (rr_ttl r))) with 4 in E4.
+  assert (C5 : pn_cm s5 = Some cm1) by congruence.
+  assert (J5 : Je cm1 ls1 (poff s5)) by (eapply Je_mono; [exact J1|lia]).
+  destruct (fields_joint_eq (rr_data r) (tl_pack Ly) 0 ts cap s5 cm1 ls1 (poff st) (hl + 10) n c' s6 Hk Hpl0 C5 J5) as
+      [cm' [ls' [A [B [C D]]]]]; auto.
+  { lia. }
+  apply rr_finish_off in Hp. destruct Hp as [O1 O2].
+  exists cm', ls'. split; [congruence|]. split; [exact B|]. rewrite O1. split; [exact C|exact D].
+Qed.
+
+(* ---- the OPT record: owned by the root, every option of the length its own
+   len() reports ---- *)
+Definition pairs_exactb (l : list (N * bytes * N)) : bool := forallb (fun p => lenN (snd (fst p)) =? snd p) l.
+Definition opt_plain (r : rr) : bool :=
+  String.eqb (rr_kind r) "OPT" && bytes_eqb (rr_name r) [46]
+  && pairs_exactb (as_pairs (vget (rr_data r) "Option")).
+
+Lemma pack_opts_exact l : forall cap st st',
+  pairs_exactb l = true -> pack_opts l cap st = Ok st' ->
+  poff st' = poff st + pairs_est l /\ pn_cm st' = pn_cm st.
+Proof.
+  induction l as [|[[code b] n] r IH]; intros cap st st' He H.
+  - injection H as <-. cbn [pairs_est]. split; [lia|reflexivity].
+  - cbn [pairs_exactb forallb fst snd] in He. apply andb_prop in He. destruct He as [Hb Hr].
+    cbn [pack_opts] in H. destruct (cap <? _); [discriminate|]. destruct (cap <? _); [discriminate|].
+    destruct (IH _ _ _ Hr H) as [I1 I2]. rewrite poff_pemit in I1. rewrite !lenN_app, !lenN_u16 in I1.
+    cbn [pairs_est snd]. split; [lia|exact I2].
+Qed.
+
+Lemma opt_layout Ly : find_layout layouts "OPT" = Some Ly -> tl_pack Ly = [("Option"%string, K_opt)].
+Proof. intro E. vm_compute in E. injection E as <-. reflexivity. Qed.
+
+Lemma rr_opt_joint_eq r cap st cm ls n c' st' :
+  opt_plain r = true -> pn_cm st = Some cm -> Je cm ls (poff st) -> poff st < cap ->
+  pack_rr r cap true st = Ok st' ->
+  len_rr r (poff st) (Some ls) = (n, c') ->
+  pn_cm st' = Some cm /\ c' = Some ls /\ poff st' = poff st + n /\ Je cm ls (poff st').
+Proof.
+  unfold opt_plain. intros Hpl Hcm HJ Hcap Hp Hl.
+  apply andb_prop in Hpl. destruct Hpl as [Hpl Hpe]. apply andb_prop in Hpl. destruct Hpl as [Hk Hn].
+  apply String.eqb_eq in Hk. apply bytes_eqb_eq in Hn.
+  unfold len_rr in Hl. rewrite Hk, Hn in Hl.
+  change (domain_name_len [46] (poff st) (Some ls) true) with (1, Some ls) in Hl.
+  change (len_terms_of "OPT") with (Some [L_pairs "Option"]) in Hl.
+  cbn [len_terms len_term] in Hl. rewrite pairs_fold in Hl. injection Hl as <- <-.
+  destruct (find_layout layouts (rr_kind r)) as [Ly|] eqn:EL.
+  2:{ rewrite Hk in EL. vm_compute in EL. discriminate. }
+  rewrite (pack_rr_unfold r Ly cap true st EL) in Hp. rewrite Hk in EL. apply opt_layout in EL. rewrite EL in Hp.
+  unfold pack_header in Hp. replace (poff st =? cap) with false in Hp by lia. rewrite Hn in Hp.
+  destruct (pack_name [46] cap true st) as [s1| | |] eqn:E1; try discriminate. cbn [bind] in Hp.
+  destruct (pack_fixed (u16 (rr_type r)) cap s1) as [s2| | |] eqn:E2; try discriminate. cbn [bind] in Hp.
+  destruct (pack_fixed (u16 (rr_class r)) cap s2) as [s3| | |] eqn:E3; try discriminate. cbn [bind] in Hp.
+  destruct (pack_fixed (u32 (rr_ttl r)) cap s3) as [s4| | |] eqn:E4; try discriminate. cbn [bind] in Hp.
+  destruct (pack_fixed (u16 0) cap s4) as [s5| | |] eqn:E5; try discriminate. cbn [bind] in Hp.
+  cbn [pack_fields pack_field] in Hp.
+  destruct (pack_opts (as_pairs (vget (rr_data r) "Option")) cap s5) as [s6| | |] eqn:E6; try discriminate.
+  cbn [bind] in Hp.
+  pose proof (pack_name_root_cm _ _ _ _ E1) as C1. apply pack_name_root in E1. fold (poff s1) in E1. fold (poff st) in E1.
+  pose proof (pack_fixed_cm _ _ _ _ E2). pose proof (pack_fixed_cm _ _ _ _ E3).
+  pose proof (pack_fixed_cm _ _ _ _ E4). pose proof (pack_fixed_cm _ _ _ _ E5).
+  apply pack_fixed_exact in E2, E3, E4, E5. rewrite lenN_u16 in E2, E3, E5.
+  change (lenN (u32 (rr_ttl r))) with 4 in E4.
+  destruct (pack_opts_exact _ _ _ _ Hpe E6) as [O6 C6].
+  apply rr_finish_off in Hp. destruct Hp as [O1 O2].
+  assert (Hoff : poff st' = poff st + (1 + 10 + pairs_est (as_pairs (vget (rr_data r) "Option")))) by lia.
+  split; [congruence|]. split; [reflexivity|]. split; [exact Hoff|]. eapply Je_mono; [exact HJ|lia].
+Qed.
+
+Definition rr_cok (r : rr) : bool := rr_cplain r || opt_plain r.
+
+Lemma rr_cok_joint_eq r cap st cm ls n c' st' :
+  rr_cok r = true -> pn_cm st = Some cm -> Je cm ls (poff st) -> poff st < cap ->
+  pack_rr r cap true st = Ok st' ->
+  len_rr r (poff st) (Some ls) = (n, c') ->
+  exists cm' ls', pn_cm st' = Some cm' /\ c' = Some ls' /\ poff st' = poff st + n /\ Je cm' ls' (poff st').
+Proof.
+  unfold rr_cok. intros H. apply orb_prop in H. destruct H as [H|H]; intros Hcm HJ Hcap Hp Hl.
+  - eapply rr_joint_eq; eauto.
+  - destruct (rr_opt_joint_eq r cap st cm ls n c' st' H Hcm HJ Hcap Hp Hl) as [A [B [C D]]]. exists cm, ls. auto.
+Qed.
+
+Lemma question_joint_eq q cap st cm ls n c' st' :
+  q_plain q = true -> pn_cm st = Some cm -> Je cm ls (poff st) ->
+  pack_question q cap true st = Ok st' ->
+  len_question q (poff st) (Some ls) = (n, c') ->
+  exists cm' ls', pn_cm st' = Some cm' /\ c' = Some ls' /\ poff st' = poff st + n /\ Je cm' ls' (poff st').
+Proof.
+  unfold q_plain. intros Hq Hcm HJ Hp Hl. apply andb_prop in Hq. destruct Hq as [Hb Hn].
+  unfold len_question in Hl.
+  destruct (domain_name_len (q_name q) (poff st) (Some ls) true) as [hl c1] eqn:En. injection Hl as <- <-.
+  unfold pack_question in Hp.
+  destruct (pack_name (q_name q) cap true st) as [s1| | |] eqn:E1; try discriminate. cbn [bind] in Hp.
+  destruct (pack_fixed (u16 (q_type q)) cap s1) as [s2| | |] eqn:E2; try discriminate. cbn [bind] in Hp.
+  destruct (name_joint_eq (q_name q) cap true st cm ls hl c1 s1) as [cm1 [ls1 [C1 [-> [Hs J1]]]]]; auto.
+  { unfold no_bs in Hb. now destruct (has_backslash _). }
+  { intro E. rewrite E in Hn. discriminate. }
+  pose proof (pack_fixed_cm _ _ _ _ E2). pose proof (pack_fixed_cm _ _ _ _ Hp).
+  apply pack_fixed_exact in E2, Hp. rewrite lenN_u16 in E2, Hp.
+  exists cm1, ls1. split; [congruence|]. split; [reflexivity|]. split; [lia|]. eapply Je_mono; [exact J1|lia].
+Qed.
+
+Lemma questions_joint_eq l : forall cap st cm ls L' c' st',
+  forallb q_plain l = true -> pn_cm st = Some cm -> Je cm ls (poff st) ->
+  pack_questions l cap true st = Ok st' ->
+  fold_left step_q l (poff st, Some ls) = (L', c') ->
+  exists cm' ls', pn_cm st' = Some cm' /\ c' = Some ls' /\ poff st' = L' /\ Je cm' ls' (poff st').
+Proof.
+  induction l as [|q r IH]; intros cap st cm ls L' c' st' Hq Hcm HJ Hp Hl.
+  - injection Hp as <-. cbn [fold_left] in Hl. injection Hl as <- <-. exists cm, ls. auto.
+  - cbn [forallb] in Hq. apply andb_prop in Hq. destruct Hq as [Hq Hr].
+    cbn [pack_questions] in Hp. destruct (pack_question q cap true st) as [s1| | |] eqn:E1; try discriminate.
+    cbn [bind] in Hp. cbn [fold_left] in Hl. unfold step_q at 2 in Hl. cbn [fst snd] in Hl.
+    destruct (len_question q (poff st) (Some ls)) as [n c1] eqn:En.
+    destruct (question_joint_eq q cap st cm ls n c1 s1 Hq Hcm HJ E1 En) as [cm1 [ls1 [C1 [-> [Hs J1]]]]].
+    rewrite <- Hs in Hl. exact (IH cap s1 cm1 ls1 L' c' st' Hr C1 J1 Hp Hl).
+Qed.
+
+Lemma rrs_joint_eq l : forall cap st cm ls L' c' st',
+  forallb rr_cok l = true -> forallb rr_okb l = true -> pn_cm st = Some cm -> Je cm ls (poff st) ->
+  poff st + rrs_est l < cap ->
+  pack_rrs l cap true st = Ok st' ->
+  fold_left step_r l (poff st, Some ls) = (L', c') ->
+  exists cm' ls', pn_cm st' = Some cm' /\ c' = Some ls' /\ poff st' = L' /\ Je cm' ls' (poff st').
+Proof.
+  induction l as [|x r IH]; intros cap st cm ls L' c' st' Hc Hok Hcm HJ Hcap Hp Hl.
+  - injection Hp as <-. cbn [fold_left] in Hl. injection Hl as <- <-. exists cm, ls. auto.
+  - cbn [forallb] in Hc, Hok. apply andb_prop in Hc. destruct Hc as [Hx Hr].
+    apply andb_prop in Hok. destruct Hok as [Hox Hor]. cbn [rrs_est] in Hcap.
+    cbn [pack_rrs] in Hp. destruct (pack_rr x cap true st) as [s1| | |] eqn:E1; try discriminate.
+    cbn [bind] in Hp. cbn [fold_left] in Hl. unfold step_r at 2 in Hl. cbn [fst snd] in Hl.
+    destruct (len_rr x (poff st) (Some ls)) as [n c1] eqn:En.
+    assert (Hlt : poff st < cap) by lia.
+    destruct (rr_cok_joint_eq x cap st cm ls n c1 s1 Hx Hcm HJ Hlt E1 En) as [cm1 [ls1 [C1 [-> [Hs J1]]]]].
+    destruct (room_rr x true st (poff st + rr_est x) Hox) as [R1 _]; [lia|]. apply R1 in E1.
+    rewrite <- Hs in Hl. apply (IH cap s1 cm1 ls1 L' c' st' Hr Hor C1 J1); [lia|exact Hp|exact Hl].
+Qed.
+
+(* ---- the message ---- *)
+(* escape-free questions; every record either a plain record (C08) of a kind
+   aligned for compression — the sixteen common kinds are — or a real OPT *)
+Definition msg_cplain (m : msg) : bool :=
+  forallb q_plain (m_question m) && forallb rr_cok (m_answer m) && forallb rr_cok (m_ns m)
+  && forallb rr_cok (m_extra m).
+
+Lemma rr_cok_ext r c : rr_cok (set_ext_rcode r c) = rr_cok r.
+Proof. reflexivity. Qed.
+Lemma cok_update l f : (forall x, rr_cok (f x) = rr_cok x) -> forall i,
+  forallb rr_cok (update_nth l i f) = forallb rr_cok l.
+Proof.
+  intro Hf. induction l as [|x r IH]; intro i; [destruct i; reflexivity|].
+  destruct i; cbn [update_nth forallb]; [now rewrite Hf|now rewrite IH].
+Qed.
+Lemma msg_extra_cok m : forallb rr_cok (msg_extra m) = forallb rr_cok (m_extra m).
+Proof. unfold msg_extra. destruct (last_opt_index _ _ _); [|reflexivity]. apply cok_update. intro; apply rr_cok_ext. Qed.
+
+Lemma Je_empty P : Je [] [] P.
+Proof.
+  split.
+  - intro k. split; [intros []|]. intro H. exfalso. apply H. reflexivity.
+  - intros X Z HX. exfalso. apply HX. reflexivity.
+Qed.
+
+(* Len() = len(Pack()) for a message packed WITH compression *)
+Theorem msg_len_exact_compressed m w :
+  msg_cplain m = true -> msg_okb m = true -> msg_compress m = true -> pack_msg m = Ok w -> lenN w = msg_len m.
+Proof.
+  intros Hpl Hok1 Hc.
+  unfold msg_cplain in Hpl. repeat (apply andb_prop in Hpl; let X := fresh "Hpl" in destruct Hpl as [Hpl X]).
+  unfold msg_okb in Hok1. apply andb_prop in Hok1. destruct Hok1 as [Hok1 He1]. apply andb_prop in Hok1. destruct Hok1 as [Ha1 Hn1].
+  unfold pack_msg, msg_len. fold (msg_compress m). rewrite Hc.
+  rewrite pack_msg_buf_sections. destruct (4095 <? _); [discriminate|].
+  assert (K : (do r <- (do st <- pack_sections (m_question m) (m_answer m) (m_ns m) (msg_extra m) (msg_compress m)
+                                (msg_hdr m) (msg_cap m 0) (msg_st0 m);
+                        Ok (pn_out st, negb (0 <? msg_len_with m None + 1))); Ok (fst r)) = Ok w ->
+              lenN w = msg_len_with m (Some [])).
+  { destruct (pack_sections _ _ _ _ _ _ _ _) as [st| | |] eqn:E; try discriminate. cbn [bind fst].
+    intro X. injection X as <-. revert E. unfold pack_sections. rewrite Hc.
+    pose proof (msg_cap_gt m 0) as Hcap. rewrite msg_len_with_none in Hcap. unfold msg_est in Hcap.
+    rewrite <- (msg_extra_est m) in Hcap. rewrite <- msg_extra_cok in Hpl0. rewrite <- msg_extra_okb in He1.
+    destruct (pack_fixed (msg_hdr m) (msg_cap m 0) (msg_st0 m)) as [s1| | |] eqn:E1; try discriminate. cbn [bind].
+    destruct (pack_questions _ _ _ s1) as [s2| | |] eqn:E2; try discriminate. cbn [bind].
+    destruct (pack_rrs (m_answer m) _ _ s2) as [s3| | |] eqn:E3; try discriminate. cbn [bind].
+    destruct (pack_rrs (m_ns m) _ _ s3) as [s4| | |] eqn:E4; try discriminate. cbn [bind].
+    intro E5.
+    assert (C0 : pn_cm (msg_st0 m) = Some []) by (unfold msg_st0; rewrite Hc; reflexivity).
+    pose proof (pack_fixed_cm _ _ _ _ E1) as C1. rewrite C0 in C1.
+    apply pack_fixed_exact in E1. rewrite lenN_msg_hdr in E1. change (poff (msg_st0 m)) with 0 in E1.
+    assert (P1 : poff s1 = 12) by lia.
+    rewrite msg_len_with_steps, <- fold_extra.
+    (* uncompressed bounds keep every record start inside the buffer *)
+    destruct (room_questions (m_question m) true s1 (poff s1 + qs_est (m_question m))) as [Rq _]; [lia|].
+    pose proof (Rq _ _ E2) as B2.
+    destruct (room_rrs (m_answer m) true s2 (poff s2 + rrs_est (m_answer m)) Ha1) as [Ra _]; [lia|].
+    pose proof (Ra _ _ E3) as B3.
+    destruct (room_rrs (m_ns m) true s3 (poff s3 + rrs_est (m_ns m)) Hn1) as [Rn _]; [lia|].
+    pose proof (Rn _ _ E4) as B4.
+    rewrite <- P1.
+    destruct (fold_left step_q (m_question m) (poff s1, Some [])) as [L2 c2] eqn:F2.
+    destruct (questions_joint_eq _ _ s1 [] [] L2 c2 s2 Hpl C1 (Je_empty _) E2 F2) as [cm2 [ls2 [C2 [-> [P2 J2]]]]].
+    subst L2.
+    destruct (fold_left step_r (m_answer m) (poff s2, Some ls2)) as [L3 c3] eqn:F3.
+    assert (H3 : poff s2 + rrs_est (m_answer m) < msg_cap m 0) by lia.
+    destruct (rrs_joint_eq _ _ s2 cm2 ls2 L3 c3 s3 Hpl2 Ha1 C2 J2 H3 E3 F3) as [cm3 [ls3 [C3 [-> [P3 J3]]]]].
+    subst L3.
+    destruct (fold_left step_r (m_ns m) (poff s3, Some ls3)) as [L4 c4] eqn:F4.
+    assert (H4 : poff s3 + rrs_est (m_ns m) < msg_cap m 0) by lia.
+    destruct (rrs_joint_eq _ _ s3 cm3 ls3 L4 c4 s4 Hpl1 Hn1 C3 J3 H4 E4 F4) as [cm4 [ls4 [C4 [-> [P4 J4]]]]].
+    subst L4.
+    destruct (fold_left step_r (msg_extra m) (poff s4, Some ls4)) as [L5 c5] eqn:F5.
+    assert (H5 : poff s4 + rrs_est (msg_extra m) < msg_cap m 0) by lia.
+    destruct (rrs_joint_eq _ _ s4 cm4 ls4 L5 c5 st Hpl0 He1 C4 J4 H5 E5 F5) as [cm5 [ls5 [C5 [-> [P5 J5]]]]].
+    assert (EQ : fold_left step_r (msg_extra m) (fold_left step_r (m_ns m) (fold_left step_r (m_answer m)
+                   (fold_left step_q (m_question m) (poff s1, Some [])))) = (L5, Some ls5)).
+    { rewrite F2, F3, F4. exact F5. }
+    exact (eq_ind (L5, Some ls5) (fun x : N * option lset => lenN (pn_out st) = fst x) P5 _ (eq_sym EQ)). }
+  destruct (last_opt_index _ _ _); [|destruct (15 <? _); [discriminate|]]; exact K.
+Qed.
+
+(* hence exactness of Len() for the message with the first dropped record *)
+Corollary len_exact_compressed_plain m' :
+  msg_cplain m' = true -> msg_okb m' = true -> msg_compress m' = true -> len_exact_compressed m'.
+Proof. intros H1 H2 H3 w Hw. now apply msg_len_exact_compressed. Qed.
+
+(* ================================================================== *)
+(* 9. THE CLAUSE on the packed octets                                   *)
+(* ================================================================== *)
+(* for an escape-free message of the common types (msg_cplain; msg_okb as in
+   C08), the records Truncate kept, the first record it dropped and the OPT do
+   not pack into max(size, 512) octets *)
+Theorem first_dropped_does_not_fit_packed_plain m size0 m' w :
+  has_tsig m = false -> set_aside_exact m = true -> msg_cplain m = true -> msg_okb m = true ->
+  next_dropped m size0 = Some m' -> pack_msg m' = Ok w ->
+  (trunc_size size0 < Z.of_N (lenN w))%Z.
+Proof.
+  intros Ht Hx Hpl Hok Hnd Hp.
+  unfold msg_cplain in Hpl. repeat (apply andb_prop in Hpl; let X := fresh "Hpl" in destruct Hpl as [Hpl X]).
+  unfold msg_okb in Hok. apply andb_prop in Hok. destruct Hok as [Hok He]. apply andb_prop in Hok. destruct Hok as [Ha Hn].
+  destruct (next_dropped_forallb rr_cok m size0 m' Ht Hnd Hpl2 Hpl1 Hpl0) as [Eq [A1 [A2 A3]]].
+  destruct (next_dropped_forallb rr_okb m size0 m' Ht Hnd Ha Hn He) as [_ [B1 [B2 B3]]].
+  apply (first_dropped_does_not_fit_packed m size0 m' w Ht Hx Hnd); [|exact Hp].
+  apply len_exact_compressed_plain.
+  - unfold msg_cplain. now rewrite Eq, Hpl, A1, A2, A3.
+  - unfold msg_okb. now rewrite B1, B2, B3.
+  - exact (next_dropped_compress m size0 m' Ht Hnd).
+Qed.
+
+(* ================================================================== *)
+(* 10. witnesses                                                        *)
 (* ================================================================== *)
 Definition the_next (m : msg) (size0 : Z) : msg := match next_dropped m size0 with Some x => x | None => m end.
 Definition packed_len (m : msg) : option N := match pack_msg m with Ok w => Some (lenN w) | _ => None end.
@@ -531,4 +1236,40 @@ Theorem every_dropped_record_does_not_fit_refuted :
   (has_tsig t_later = false /\ set_aside_exact t_later = true /\
    length (m_answer (truncate t_later 512)) = 2%nat /\ m_extra (truncate t_later 512) = [t_opt 0] /\
    msg_len t_later_alt = 494 /\ packed_len t_later_alt = Some 494).
+Proof. vm_compute. repeat split; reflexivity. Qed.
+
+(* the hypotheses of the packed form hold of the three-answer message *)
+Lemma t_three_plain : msg_cplain t_three = true /\ msg_okb t_three = true /\ msg_cplain t_exact = true /\ msg_okb t_exact = true.
+Proof. vm_compute. repeat split; reflexivity. Qed.
+
+(* a reply whose names share suffixes all over (MX, SRV, NS, A, TXT, OPT with
+   eight octets of padding): Len() = len(Pack()) = 639 with compression against
+   791 without; Truncate(512) keeps everything but the last TXT record and
+   leaves 422 octets; with that record back the message packs to 639 > 512 *)
+Definition t_a (nm : string) : rr := t_rr nm 1 "A" [("A"%string, V_b [192; 0; 2; 1])].
+Definition t_mx (nm tgt : string) : rr :=
+  t_rr nm 15 "MX" [("Preference"%string, V_n 10); ("Mx"%string, V_s (bytes_of_string tgt))].
+Definition t_ns (nm tgt : string) : rr := t_rr nm 2 "NS" [("Ns"%string, V_s (bytes_of_string tgt))].
+Definition t_srv (nm tgt : string) : rr :=
+  t_rr nm 33 "SRV" [("Priority"%string, V_n 1); ("Weight"%string, V_n 2); ("Port"%string, V_n 443);
+                    ("Target"%string, V_s (bytes_of_string tgt))].
+Definition t_mixed : msg :=
+  {| m_id := 7; m_response := true; m_opcode := 0; m_aa := true; m_tc := false; m_rd := false; m_ra := false;
+     m_z := false; m_ad := false; m_cd := false; m_rcode := 0; m_compress := true;
+     m_question := [{| q_name := bytes_of_string "example.org."; q_type := 15; q_class := 1 |}];
+     m_answer := [t_mx "example.org." "mail.example.org."; t_mx "example.org." "mail2.example.org.";
+                  t_srv "_sip._tcp.example.org." "mail.example.org."];
+     m_ns := [t_ns "example.org." "ns1.example.org."; t_ns "example.org." "ns2.example.org."];
+     m_extra := [t_a "mail.example.org."; t_a "ns1.example.org."; t_txt "example.org." 200;
+                 t_txt "www.example.org." 200; t_opt 8] |}.
+Definition t_mixed_next : msg := the_next t_mixed 512.
+Lemma t_mixed_facts :
+  has_tsig t_mixed = false /\ set_aside_exact t_mixed = true /\ msg_cplain t_mixed = true /\ msg_okb t_mixed = true /\
+  msg_compress t_mixed = true /\ msg_len t_mixed = 639 /\ msg_len_with t_mixed None = 791 /\
+  packed_len t_mixed = Some 639 /\
+  msg_len (truncate t_mixed 512) = 422 /\ packed_len (truncate t_mixed 512) = Some 422 /\
+  length (m_answer (truncate t_mixed 512)) = 3%nat /\ length (m_ns (truncate t_mixed 512)) = 2%nat /\
+  length (m_extra (truncate t_mixed 512)) = 4%nat /\
+  next_dropped t_mixed 512 = Some t_mixed_next /\ length (m_extra t_mixed_next) = 5%nat /\
+  msg_len t_mixed_next = 639 /\ packed_len t_mixed_next = Some 639.
 Proof. vm_compute. repeat split; reflexivity. Qed.
